@@ -141,7 +141,7 @@ def _make_defs(seed, n_random, n_groups):
     defs = []
     for (mid, t, nt, label) in single_method_traits():
         defs.append({"id": mid, "kind": "trait", "src": emit.trait_def(t).replace("#[cglue_trait]\n", "", 1), "nontrivial": nt, "label": label,
-                     "extra": PRELUDE + "//@@" + dummy_impl(t, "D" + mid) + probes(mid, t), "trait": t.name})
+                     "extra": PRELUDE + "//@@" + dummy_impl(t, "D" + mid) + probes(mid, t), "trait": t.name, "exported": [m.name for m in t.exported()]})
     rnd = []
     for k in range(n_random):
         trng = random.Random(rng.getrandbits(64))
@@ -149,7 +149,7 @@ def _make_defs(seed, n_random, n_groups):
         nt = any(a.wrapped for m in t.methods for a in m.args) or any(m.ret.wrapped for m in t.methods)
         rnd.append(t)
         defs.append({"id": f"r{k}", "kind": "trait", "src": emit.trait_def(t).replace("#[cglue_trait]\n", "", 1), "nontrivial": nt, "label": "random",
-                     "extra": PRELUDE + "//@@" + dummy_impl(t, f"Dr{k}") + probes(f"r{k}", t), "trait": t.name})
+                     "extra": PRELUDE + "//@@" + dummy_impl(t, f"Dr{k}") + probes(f"r{k}", t), "trait": t.name, "exported": [m.name for m in t.exported()]})
     # groups over the random traits (the group expansion only needs the names)
     for k in range(n_groups):
         if len(rnd) < 4:
